@@ -132,6 +132,7 @@ func traceT1Write(args []string) error {
 	type fail struct{ Sig, What, Stim string }
 	var fails []fail
 	events, glyphEvents := 0, 0
+	shapes := map[string]int{}
 	encs := []string{"none", "std-subset", "custom", "holes"}
 	ints := func(b []byte) []int {
 		o := make([]int, len(b))
@@ -147,6 +148,7 @@ func traceT1Write(args []string) error {
 			o.NGlyphs = 300
 		}
 		f := fontgen.Generate(rng, o)
+		fontgen.SegmentShapes(f, shapes)
 		stim := fmt.Sprintf("font #%d seed %d %+v", i, seed, o)
 		var refGlyphs map[string][]byte
 		for fi, form := range []string{"pfa", "pfb", "binary", "noeexec", "pdf"} {
@@ -349,5 +351,6 @@ func traceT1Write(args []string) error {
 		}
 	}
 	return emit(map[string]any{"events": events, "glyph_events": glyphEvents, "fonts": n, "failures": fails,
-		"axes": []string{fmt.Sprintf("%d fonts x {pfa, pfb, binary, noeexec, pdf}", n)}})
+		"axes":   []string{fmt.Sprintf("%d fonts x {pfa, pfb, binary, noeexec, pdf}", n)},
+		"shapes": shapes, "shapes_missing": missingShapes(shapes)})
 }
